@@ -14,6 +14,7 @@ from .consts import (
     OWL_DatatypeProperty,
     RDF_first,
     RDF_Property,
+    RDF_rest,
     RDF_type,
     RDFS_Class,
     RDFS_subClassOf,
@@ -64,7 +65,33 @@ class ShapesGraph(object):
         self._shacl_functions: Dict[str, tuple] = {}
         self._shacl_target_types: Dict[str, 'RDFNode'] = {}
         self._use_js = False
+        self._check_rdf_lists()
         self._add_system_triples()
+
+    def _check_rdf_lists(self):
+        """
+        A RDF list whose rdf:rest chain runs in a circle has no members one could enumerate (rdflib's
+        Graph.items() raises a bare ValueError for it wherever a list-valued parameter is read).
+        Such a shapes graph is ill-formed: report it once, here.
+        """
+        rest_of = {}
+        for s, o in self.graph.subject_objects(RDF_rest):
+            rest_of.setdefault(s, o)
+        checked = set()
+        for start in rest_of:
+            if start in checked:
+                continue
+            seen = set()
+            current = start
+            while current in rest_of and current not in checked:
+                if current in seen:
+                    raise ShapeLoadError(
+                        "A RDF list in the SHACL Shapes Graph has a cyclic rdf:rest chain.",
+                        "https://www.w3.org/TR/shacl/#syntax",
+                    )
+                seen.add(current)
+                current = rest_of[current]
+            checked.update(seen)
 
     def enable_js(self):
         self._use_js = True
